@@ -405,6 +405,39 @@ theorem classNodePrivate_sound (s : Sys) : ∀ f c, classNodePrivate s f c = tru
     simp only [Bool.and_eq_true, List.all_eq_true] at h
     exact ⟨h.1, fun sc hsc => ⟨f, h.2 sc hsc⟩⟩
 
+/-- classIndex.html, the part of "every listing entry of a PRIVATE object is marked" that holds: a private class
+without subclasses is marked (its `<li>` holds nothing else) -/
+theorem private_marked_classIndex_partial {s : Sys} {e : Emit} (h : e ∈ emits s) (hr : e.row = .classIndex)
+    (hp : (s.ob e.target).privacy = .priv) (hleaf : (s.ob e.target).subclasses = []) : e.marked = some true := by
+  rw [classIndex_marker h hr]
+  have hn : 0 < s.n := by
+    rcases mem_emits h with ⟨hr', hv⟩ | ⟨_, _, r, hr', _, hrow, ht, _⟩
+    · exact Nat.lt_of_le_of_lt (Nat.zero_le _) (visible_lt hv)
+    · have ho := origin hr'
+      simp only [Origin, hrow ▸ hr] at ho
+      exact Nat.lt_of_le_of_lt (Nat.zero_le _) (visible_lt ho.2.1)
+  have hc : ctxPrivate s e.target = true := ctxPrivate_of_private s e.target (by simp [isPrivate, hp])
+  obtain ⟨k, hk⟩ : ∃ k, s.n = k + 1 := ⟨s.n - 1, by omega⟩
+  rw [hk]
+  simp [classNodePrivate, hleaf, hc]
+
+/-- `m.py`: `class _B` (PRIVATE by its name) and `class S(_B)` (public) -/
+def sPrivateBase : Sys :=
+  { objs := #[ mkObj ['m'] .module none .pub [1, 2],
+              { mkObj ['_', 'B'] .cls (some 0) .priv [] with mro := [1], subclasses := [2] },
+              { mkObj ['S'] .cls (some 0) .pub [] with
+                  bases := [some 1], baseNames := [['m', '.', '_', 'B']], mro := [2, 1], sigrefs := [some 1] } ],
+    all := [0, 1, 2], roots := [0], depth := 1, nosidebar := false }
+
+/-- the full statement is false for classIndex.html: `summary.isClassNodePrivate` marks the `<li>` of a class only
+when all its subclasses are private too (the `<li>` also holds their entries); the PRIVATE `m._B` with the public
+subclass `m.S` is listed without the marker, so the toggle does not hide it. Elsewhere (name index) it is marked. -/
+theorem private_marked_classIndex_counterexample :
+    wf sPrivateBase = true ∧ (sPrivateBase.ob 1).privacy = .priv ∧
+    ((emits sPrivateBase).any fun e => e.row == .classIndex && e.target == 1 && e.marked == some false) = true ∧
+    ((emits sPrivateBase).all fun e => !(e.row == .nameIndex && e.target == 1) || e.marked == some true) = true := by
+  decide
+
 /-! ### what is still false of the current code: the unlinked base nodes of classIndex.html -/
 
 /-- two roots, one hidden -/
